@@ -411,6 +411,12 @@ def check(program: Program, run: Run) -> None:
             elif isinstance(n, ast.SetComp) and len(n.generators) == 1 and isinstance(n.elt, ast.Name) and isinstance(n.generators[0].target, ast.Name) \
                     and n.elt.id == n.generators[0].target.id:
                 carg = _find_arg(n.generators[0].iter)
+                g0 = n.generators[0]
+                # the filter spelled out: {node for node in self.nodes_() if isinstance(node, Table)}
+                if (carg is None and isinstance(g0.iter, ast.Call) and isinstance(g0.iter.func, ast.Attribute) and g0.iter.func.attr == "nodes_" and len(g0.ifs) == 1
+                        and isinstance(g0.ifs[0], ast.Call) and isinstance(g0.ifs[0].func, ast.Name) and g0.ifs[0].func.id == "isinstance" and len(g0.ifs[0].args) == 2
+                        and isinstance(g0.ifs[0].args[0], ast.Name) and g0.ifs[0].args[0].id == g0.target.id and isinstance(g0.ifs[0].args[1], ast.Name)):
+                    carg = g0.ifs[0].args[1]
             elif isinstance(n, ast.For) and isinstance(n.target, ast.Name) and _find_arg(n.iter) is not None:
                 if any(isinstance(c_, ast.Call) and isinstance(c_.func, ast.Attribute) and c_.func.attr == "add" and isinstance(c_.func.value, ast.Name)
                        and c_.func.value.id in set_locals and c_.args and isinstance(c_.args[0], ast.Name) and c_.args[0].id == n.target.id for c_ in ast.walk(n)):
